@@ -81,8 +81,8 @@ type schedRun struct {
 	jdone   []<-chan struct{}
 	jcancel []context.CancelFunc
 	// jpub mirrors the synchronisation a user needs to hand a job's cancel
-	// function to another job's body (store after creation, load before use)
-	jpub atomic.Bool
+	// function to another job's body (add after creation, load before use)
+	jpub atomic.Int32
 }
 
 // Result of one run.
@@ -276,6 +276,11 @@ func (r *runner) caller(si int) {
 		sim.AddIdleMax(sd.DelaySteps + 4)
 		context.AfterFunc(ctx, func() { r.log(EvCancel, si, -1) })
 	}
+	if sd.CtxKind == 1 && sd.CancelMode != CancelDeadline {
+		uc := engine.NewUserCtx(ctx)
+		stdCancel := cancel
+		ctx, cancel = context.WithValue(uc, ctxKey{}, sr.token), func() { uc.Cancel(); stdCancel() }
+	}
 	sr.setCtx(ctx, cancel)
 	sr.ctxPub.Store(true)
 	sim.SetFlag(flagCtxReady(si))
@@ -312,7 +317,7 @@ func (r *runner) caller(si int) {
 				var jcancel context.CancelFunc
 				jctx, jcancel = context.WithCancel(base)
 				sr.setJobCtx(j, jctx.Done(), jcancel)
-				jpub.Store(true)
+				jpub.Add(1) // read-modify-write: a plain store by a second enqueuer would cut the release sequence of the first
 				if jd.Ctx == CtxOwnDead {
 					r.log(EvJobCancel, si, j)
 					r.noteFault(&r.res.JobCtxCancelled)
